@@ -475,3 +475,168 @@ class ClassInterp(object):
             if isinstance(st, ast.Raise):
                 raise Raised(norm(st.exc, 40) if st.exc is not None else 're-raise')
             raise Unsupported('statement %s' % norm(st, 60))
+
+
+# ---------------------------------------------------------------------------------------------
+# Kernel-level interpretation (special-value tables, property C02/C06): the raw kernels mpf_add,
+# mpf_mul, mpf_div, ... treat zeros, infinities and nan in explicit code in front of (or behind) the
+# arithmetic on two normal numbers.  That code reads its operands only through class-determined
+# tests, so it can be interpreted on every combination of operand classes in which at least one
+# operand is not a normal number, and compared with the special-value table.
+class Arith(Exception):
+    """the interpretation reached arithmetic on normal numbers whose result the classes do not determine"""
+
+
+class NeedChoice(Exception):
+    pass
+
+
+class KernelInterp(ClassInterp):
+    NORMALISERS = ('normalize', 'normalize1')
+
+    def __init__(self, lookup, symclass, choices=()):
+        ClassInterp.__init__(self, lookup, symclass)
+        self.choices = list(choices)
+        self.pos = 0
+
+    def choose(self, what):
+        """an undetermined truth value: follow the prescribed choice, or ask the driver to fork"""
+        if self.pos < len(self.choices):
+            c = self.choices[self.pos]
+            self.pos += 1
+            return c
+        raise NeedChoice(what)
+
+    def compare(self, op, a, b):
+        try:
+            return ClassInterp.compare(self, op, a, b)
+        except Unsupported:
+            if isinstance(a, (Sym, Int)) and isinstance(b, (Sym, Int)):
+                return Int(self.choose('%r %s %r' % (a, type(op).__name__, b)))
+            raise
+
+    def raw_from_fields(self, items):
+        """(sign, man, exp, bc) -> Raw"""
+        sign, man = items[0], items[1]
+        if isinstance(man, Int):
+            if man.v == 0:
+                exp = items[2]
+                if isinstance(exp, Int):
+                    for k, v in SPECIALS.items():
+                        if v[2] == exp.v and v[0] == (sign.v if isinstance(sign, Int) else None):
+                            return Raw(k, v[0])
+                return Raw('Z')
+            if isinstance(sign, Int):
+                return Raw('N', sign.v, 'ANY', tag='_r')
+        if isinstance(man, Sym) and isinstance(sign, Int):
+            s = self.sign_of(man)
+            if s == 'POS':
+                return Raw('N', sign.v, 'ANY', tag='_r')
+        raise Arith('mantissa %r' % (man,))
+
+    def coerce_raw(self, v):
+        if isinstance(v, Raw):
+            return v
+        if isinstance(v, Tuple) and len(v.items) == 4:
+            return self.raw_from_fields(v.items)
+        return v
+
+    def binop(self, op, a, b):
+        if isinstance(a, Int) and isinstance(b, Int) and isinstance(a.v, int) and isinstance(b.v, int):
+            f = {ast.BitXor: lambda: a.v ^ b.v, ast.Mult: lambda: a.v * b.v, ast.Pow: lambda: a.v ** b.v,
+                 ast.Add: lambda: a.v + b.v, ast.Sub: lambda: a.v - b.v, ast.BitAnd: lambda: a.v & b.v,
+                 ast.FloorDiv: lambda: a.v // b.v if b.v else None}.get(type(op))
+            if f is not None:
+                return Int(f())
+        if isinstance(a, Int) and a.v == 0 and isinstance(op, (ast.LShift, ast.RShift)) and isinstance(b, (Sym, Int)):
+            return Int(0)
+        if isinstance(op, ast.Mod):
+            if isinstance(b, Int) and b.v == 0:
+                raise Raised('ZeroDivisionError')
+            if isinstance(a, Int) and a.v == 0 and isinstance(b, Sym):
+                return Int(0)
+        if isinstance(op, (ast.LShift,)) and isinstance(a, Sym) and isinstance(b, (Sym, Int)):
+            return a          # a non-zero value shifted left stays non-zero of the same sign
+        if isinstance(op, ast.Mult):
+            for x, y in ((a, b), (b, a)):
+                if isinstance(x, Int) and x.v == 0 and isinstance(y, (Sym, Int)):
+                    return Int(0)
+                if isinstance(x, Int) and x.v in (1, -1) and isinstance(y, Sym):
+                    return y if x.v == 1 else Sym(dict((k, -c) for k, c in y.coef.items()), -y.c)
+            if isinstance(a, Sym) and isinstance(b, Sym) and self.sign_of(a) == 'POS' and self.sign_of(b) == 'POS':
+                return Sym({'prod': 1})
+        try:
+            return ClassInterp.binop(self, op, a, b)
+        except Unsupported:
+            raise Arith('arithmetic %s' % type(op).__name__)
+
+    def ev(self, e, env):
+        if isinstance(e, ast.Dict):
+            return ('dict', [(self.ev(k, env), self.ev(v, env)) for k, v in zip(e.keys, e.values)])
+        if isinstance(e, ast.Subscript) and not isinstance(e.slice, ast.Constant):
+            base = self.ev(e.value, env)
+            if isinstance(base, tuple) and base and base[0] == 'dict':
+                k = self.ev(e.slice, env)
+                for kk, vv in base[1]:
+                    if isinstance(kk, Int) and isinstance(k, Int) and kk.v == k.v:
+                        return vv
+                raise Raised('KeyError')
+        if isinstance(e, ast.Name) and e.id.startswith('round_') and e.id not in env:
+            return Int(e.id)
+        if isinstance(e, ast.Name) and e.id in ('fone', 'fnone', 'ftwo', 'fhalf', 'ften') and e.id not in env:
+            return Raw('N', 1 if e.id == 'fnone' else 0, 'ANY', tag='_c')
+        return ClassInterp.ev(self, e, env)
+
+    def truth(self, v):
+        if isinstance(v, Raw):
+            raise Unsupported('truth of a raw tuple')
+        try:
+            return ClassInterp.truth(self, v)
+        except Unsupported:
+            if isinstance(v, Sym):
+                return self.choose('truth of %r' % v)
+            raise
+
+    def call(self, e, env):
+        fn = norm(e.func)
+        if fn in self.NORMALISERS:
+            args = [self.ev(a, env) for a in e.args[:4]]
+            return self.raw_from_fields(args)
+        if fn == 'bitcount':
+            v = self.ev(e.args[0], env)
+            if isinstance(v, Int):
+                return Int(int(v.v).bit_length())
+            return Sym({'bc_new': 1})
+        if fn in ('min', 'max') and len(e.args) == 2:
+            args = [self.ev(a, env) for a in e.args]
+            if all(isinstance(a, Int) for a in args):
+                return Int((min if fn == 'min' else max)(a.v for a in args))
+            return Sym({'minmax': 1})
+        if fn == 'int':
+            v = self.ev(e.args[0], env)
+            if isinstance(v, Int):
+                return Int(int(v.v))
+            raise Arith('int()')
+        f = self.lookup(fn)
+        if f is not None:
+            args = [self.coerce_raw(self.ev(a, env)) for a in e.args]
+            r = self.run(f, args)
+            return self.coerce_raw(r)
+        return ClassInterp.call(self, e, env)
+
+    def assign(self, t, v, env):
+        if isinstance(t, (ast.Tuple, ast.List)) and isinstance(v, Tuple) and len(v.items) == len(t.elts):
+            for x, it in zip(t.elts, v.items):
+                self.assign(x, it, env)
+            return
+        ClassInterp.assign(self, t, v, env)
+
+    def block(self, body, env):
+        for st in body:
+            if isinstance(st, ast.AugAssign) and isinstance(st.target, ast.Name):
+                cur = env.get(st.target.id)
+                env[st.target.id] = self.binop(st.op, cur, self.ev(st.value, env))
+                continue
+            if isinstance(st, ast.Return) and st.value is not None:
+                raise ClassInterp._Ret(self.coerce_raw(self.ev(st.value, env)))
+            ClassInterp.block(self, [st], env)
